@@ -1,12 +1,14 @@
 import SeqIoModel.Proofs.WriteRoundtrip
 import SeqIoModel.Proofs.Unchanged
+import SeqIoModel.Proofs.FastaUnchanged
 /-!
 # C11 – FASTQ writing round-trips; unchanged writing reproduces the input bytes
 
 The FASTQ writer round trips through S; `write_unchanged` of the FASTQ machine emits exactly the
 record's extent in the input plus LF, for every capacity and chunking (M level), and concatenating
 these outputs over a well-formed file reproduces the file up to a final terminator; the FASTA
-counterpart is proved at the S level (extent = the record's lines).
+counterpart is proved at the S level (extent = the record's lines) and at the M level
+(`Proofs/FastaUnchanged.lean`: what `write_unchanged` of the FASTA machine emits, every configuration).
 -/
 
 namespace SeqIo.Thm.C11
@@ -66,5 +68,44 @@ theorem fasta_unchanged_reproduces_file (recs : List (List UInt8 × List (List U
       rs.flatMap (Unchanged.faOut (Recode.encodeFasta recs terms final)) =
         Recode.encodeFasta recs terms final ++ (if final || recs.isEmpty then [] else [LF]) :=
   Unchanged.fasta_unchanged_concat recs hok terms final
+
+/-- FASTA, M level: after any successful `next()` the machine's `write_unchanged` emits the record's
+original bytes (header line and sequence lines with their own line ends), plus LF unless those bytes
+already end in LF – which happens exactly when the record's last line is blank, so a trailing blank
+line of a record is normalised away, as the property allows -/
+theorem fasta_write_unchanged_bytes (inp : List UInt8) (fuel : Nat) (r : Fasta.Reader) (x : FaRec)
+    (rest : List FaRec) (hg : Fasta.InvR inp r ((x :: rest).map Fasta.toObs))
+    (hfuel : r.br.src.inp.length < fuel) (hok : (Fasta.next fuel r).2 = .ok true) :
+    Fasta.InvR inp (Fasta.next fuel r).1 (rest.map Fasta.toObs) ∧ (Fasta.next fuel r).1.byte = x.byte ∧
+    Fasta.writeUnchanged (Fasta.next fuel r).1.br.buf (Fasta.next fuel r).1.bp = some (Fasta.Unch.faEmit inp x) ∧
+    (x.seqLines.getLast? ≠ some [] →
+      Fasta.writeUnchanged (Fasta.next fuel r).1.br.buf (Fasta.next fuel r).1.bp =
+        some (Unchanged.rawFa inp x ++ [LF])) :=
+  Fasta.Unch.fasta_unchanged_bytes inp fuel r x rest hg hfuel hok
+
+/-- FASTA, M level, whole stream: for every input S accepts and every configuration, `next()` /
+`write_unchanged` in a loop writes the normalised extents of S's records in order -/
+theorem fasta_write_unchanged_stream (inp : List UInt8) (rs : List FaRec)
+    (hrs : Spec.fasta inp = .records rs) (cap : Nat) (hcap : 3 ≤ cap) (pol : Pol)
+    (hpol : Fasta.PolGrows pol) (script : List ReadEv) (hs : FillProofs.NoFail script) (chunk : Nat) (k : Nat) :
+    Fasta.Unch.runWrites k (Fasta.mkReader inp cap pol script chunk) =
+      some ((rs.take k).flatMap (Fasta.Unch.faEmit inp)) :=
+  (Fasta.Unch.fasta_write_unchanged_stream inp rs hrs cap hcap pol hpol script hs chunk k).1
+
+/-- FASTA, end to end at the M level: reading a well-formed file (any per-line mixture of LF and CRLF,
+with or without final terminator) at any capacity ≥ 3, growing policy, failure-free script and
+chunking, and writing every record unchanged reproduces the file byte for byte (plus LF if the last
+line had no terminator) -/
+theorem fasta_write_unchanged_file (recs : List (List UInt8 × List (List UInt8)))
+    (hok : Recode.FaOk recs) (terms : Nat → Recode.Term) (final : Bool) (cap : Nat) (hcap : 3 ≤ cap)
+    (pol : Pol) (hpol : Fasta.PolGrows pol) (script : List ReadEv) (hs : FillProofs.NoFail script) (chunk : Nat)
+    (k : Nat) (hk : recs.length ≤ k) :
+    Fasta.Unch.runWrites k (Fasta.mkReader (Recode.encodeFasta recs terms final) cap pol script chunk) =
+      some (Recode.encodeFasta recs terms final ++ (if final || recs.isEmpty then [] else [LF])) :=
+  Fasta.Unch.fasta_write_unchanged_file recs hok terms final cap hcap pol hpol script hs chunk k hk
+
+/-- the blank-line normalisation on a concrete input: `>a⏎⏎>b⏎` is written back as `>a⏎>b⏎` -/
+example : Fasta.Unch.runWrites 3 (Fasta.mkReader [62, 97, 10, 10, 62, 98, 10] 3 PolDesc.std.toPol [] 2) =
+    some [62, 97, 10, 62, 98, 10] := by decide
 
 end SeqIo.Thm.C11
